@@ -331,6 +331,20 @@ func exec14On(doc *kyaml.RNode, c case14) (cls string, found *kyaml.RNode, msg s
 			found, e = doc.Pipe(kyaml.Lookup(c.Path...), kyaml.Clear(c.Name))
 		case "putscalar":
 			found, e = doc.Pipe(kyaml.LookupCreate(kyaml.ScalarNode, c.Path...), kyaml.FieldSetter{Value: c.Value.build()})
+		case "copyindep":
+			// clear, copy, write to the copy, write to the original: both documents are observed
+			if _, e = doc.Pipe(kyaml.Lookup(c.Path...), kyaml.Clear(c.Name)); e != nil {
+				return e
+			}
+			cp := doc.Copy()
+			if _, e = cp.Pipe(kyaml.LookupCreate(kyaml.MappingNode, c.Path...), kyaml.SetField("zz1", kyaml.NewScalarRNode("1"))); e != nil {
+				// the model runs the put on the original first: same error either way (same node kinds)
+				return e
+			}
+			if _, e = doc.Pipe(kyaml.LookupCreate(kyaml.MappingNode, c.Path...), kyaml.SetField("zz2", kyaml.NewScalarRNode("2"))); e != nil {
+				return e
+			}
+			found = cp
 		case "fieldspec":
 			_, e = doc.Pipe(c.FS.filter(nil))
 		case "fsslice":
@@ -1029,6 +1043,9 @@ func caseTermObs14(c case14, cls string, doc, found *kyaml.RNode, obs string) (s
 		}
 	case "clear":
 		op = fmt.Sprintf("(OClear %s)", coqStr(c.Name))
+	case "copyindep":
+		op = fmt.Sprintf("(OCopyIndep %s)", coqStr(c.Name))
+		vals["1"], vals["2"] = true, true
 	case "fieldspec":
 		op = c.FS.coqOp()
 		vals["MARK"] = true
@@ -1141,6 +1158,25 @@ func runC14(r *Run, rng *Rng, tier string) error {
 			c.Value = &v
 		case "clear":
 			c.Name = g.Pick(c14Keys)
+			if g.Chance(40) {
+				c.Op = "copyindep"
+				// aim at an existing field most of the time, the only field of its mapping if there is one
+				maps := []seqAt{}
+				sq := []seqAt{}
+				collect14(root, nil, &sq, &maps, 0)
+				if len(maps) > 0 && !g.Chance(20) {
+					m := maps[g.Intn(len(maps))]
+					for _, cand := range maps {
+						if len(cand.seq.keys) == 1 && g.Chance(60) {
+							m = cand
+						}
+					}
+					c.Path = m.path
+					if len(m.seq.keys) > 0 {
+						c.Name = m.seq.keys[g.Intn(len(m.seq.keys))]
+					}
+				}
+			}
 		}
 		if c.Op == "put" {
 			v2 := c14Values[g.Intn(len(c14Values))]
